@@ -2,6 +2,7 @@
 From Coq Require Import String List ZArith QArith Bool Arith.
 Import ListNotations.
 From FV.C06 Require Import Model.
+From FV.C06.gen Require Import VtkTables.
 Open Scope string_scope.
 
 Fixpoint all2 {A B} (f : A -> B -> bool) (a : list A) (b : list B) : bool :=
@@ -32,3 +33,17 @@ Definition chk_vtk (m : mesh (list Q) Q) (pts : list (list Q))
   end.
 Definition chk_raises (m : mesh (list Q) Q) : bool :=
   match to_vtk m with None => true | Some _ => false end.
+
+(* translator validation: the generated tables, evaluated here, against what the Python objects
+   of the tree under test are at run time (config dict, ELEMENT_TYPES, the per-type node
+   re-ordering of _to_meshio / _from_meshio on an index row, which ranks reach the point data) *)
+Definition zrow_eq (a b : list Z) : bool := all2 Z.eqb a b.
+Definition chk_tables (tbl : list (string * string)) (ets : list string)
+           (exp imp : list (string * list Z * list Z)) (ranks : list (nat * bool)) : bool :=
+  all2 (fun a b => String.eqb (fst a) (fst b) && String.eqb (snd a) (snd b)) femio_to_meshio tbl &&
+  all2 String.eqb element_types ets &&
+  forallb (fun x => match vtk_perm (fst (fst x)) (snd (fst x)) with
+                    | Some d => zrow_eq d (snd x) | None => false end) exp &&
+  forallb (fun x => match femio_perm (fst (fst x)) (snd (fst x)) with
+                    | Some d => zrow_eq d (snd x) | None => false end) imp &&
+  forallb (fun rb => Bool.eqb (Nat.ltb (fst rb) point_data_rank_bound) (snd rb)) ranks.
